@@ -54,8 +54,21 @@ pub fn guarded<T>(f: impl FnOnce() -> T) -> Result<T, String> {
     }
 }
 
+/// the documented capacity assertions of the backends - but only where the program is actually
+/// near the capacity (see `codegen`): an assertion firing for a small program is a defect
 pub fn is_capacity_panic(msg: &str) -> bool {
-    msg.contains("Out of temporaries") || msg.contains("Out of registers")
+    !msg.starts_with(UNJUSTIFIED) && (msg.contains("Out of temporaries") || msg.contains("Out of registers"))
+}
+
+const UNJUSTIFIED: &str = "capacity assertion without cause";
+
+/// x86-64: 6 variables in registers + 255 spill slots; AArch64: 13 + 255 slots; RISC-V: 14
+/// variables, and scratch temporaries are taken right after the environment
+pub fn capacity_margin(arch: Arch) -> usize {
+    match arch {
+        Arch::X86 | Arch::A64 => 100,
+        Arch::Rv => 12,
+    }
 }
 
 #[derive(Debug, Clone)]
@@ -144,6 +157,17 @@ impl Arch {
 
 /// Full routine text for a linearized program, as the driver would write it to the `.asm` file.
 pub fn codegen(p: axcut::syntax::Prog, arch: Arch) -> Result<(String, usize), StageError> {
+    let width = crate::tc_axcut::max_env_linear(&p);
+    codegen_inner(p, arch).map_err(|e| match e {
+        StageError::Panic { stage, msg } if is_capacity_panic(&msg) && width < capacity_margin(arch) => StageError::Panic {
+            stage,
+            msg: format!("{UNJUSTIFIED}: the program never has more than {width} live variables, yet {}: {msg}", arch.name()),
+        },
+        e => e,
+    })
+}
+
+fn codegen_inner(p: axcut::syntax::Prog, arch: Arch) -> Result<(String, usize), StageError> {
     // only the instruction selection needs the lock (fresh label counter); printing the text is
     // done outside of it
     macro_rules! select {
